@@ -222,6 +222,7 @@ pub proof fn axiom_lower_ascii_whole(t: Seq<char>)
 // The statement is carved out whole; the frame around it (signature, `Ok(Some(output_type))`) is the template's.
 // `return Ok(());` of the refusing arm (the tool ends successfully without creating a file) becomes `return Ok(None);`.
 //@extract fn bigtools/src/utils/cli/bigwigmerge.rs bigwigmerge
+//@rule R16
 //@presub /\A.*?\n([ \t]*let output_type = match \(args\.output_type, &output\) \{.*?\n    \};)\n.*\Z/ => fn choose_output_type(args: OutArgs, output: Str, env: &mut Term) -> Result<Option<OutputType>, AnyErr> {\n\1\n    Ok(Some(output_type))\n} min=1 count=1
 //@sub /return Ok\(\(\)\);/ => return Ok(None); min=0
 //@sub /eprintln!\(/ => elog!(env,  min=0
@@ -315,6 +316,7 @@ pub fn wrap_errs(r: Result<BigWigIntervalIter, BBIReadError>) -> (w: Result<Stre
 { unimplemented!() }
 impl BigWigRead {
 //@extract method bigtools/src/bbi/bigwigread.rs with_info "^impl<R> BigWigRead<R> where R: BBIFileRead"
+//@rule R16
 //@sub /info: BBIFileInfo/ => info: Info min=1
 //@sub /read: R\)/ => read: ReopenableFile) min=1
 //@ret r
@@ -363,6 +365,7 @@ impl MergingValues {
 // signature cut from /repo (parameter order!), body skipped: the closures inside are unit mv_adjust, the merge
 // is units value_iter / merge_into.  ASSUMED: the result stands for exactly this call.
 //@extract method bigtools/src/utils/cli/bigwigmerge.rs new "impl MergingValues"
+//@rule R16
 //@skipbody
 //@sub /new<I: 'static>/ => new min=1
 //@sub /iters: Vec<I>/ => iters: Vec<Stream> min=1
@@ -552,6 +555,7 @@ pub proof fn lemma_leaves_replay(d: MVDesc)
 // (2b-i) the two per-file closures `|b| { .. }` (chunked branch first, few-files branch second), carved into
 // ONE function: `many` selects the body.  Frame (signature, `if many { .. } else { .. }`) is the template's.
 //@extract fn bigtools/src/utils/cli/bigwigmerge.rs get_merged_vals
+//@rule R16
 //@presub /\A.*?\.map\(\|b\| \{(.*?)\n[ \t]*\}\)\s*\.collect::<Result<Vec<_>, BBIReadError>>\(\)\?;.*?\.map\(\|b\| \{(.*?)\n[ \t]*\}\)\s*\.collect::<Result<Vec<_>, _>>\(\)\?;.*\Z/ => fn open_stream(b: (Info, Path), chrom: &Str, size: u32, many: bool) -> Result<Stream, MergingValuesError> {\n    if many {\1\n    } else {\2\n    }\n} min=1 count=1
 //@sub /(\w+\.get_interval_move\([^()]*\))\.map\(\|i\| i\.map\(\|r\| r\.map_err\(\|e\| MergingValuesError::BBIReadError\(e\)\)\)\)/ => wrap_errs(\1) min=0
 //@sub /Box::new\((\w+)\) as Box<_>/ => \1 min=0
@@ -592,6 +596,7 @@ pub fn collect_streams(bws: &Vec<(Info, Path)>, chrom: &Str, size: u32, many: bo
 // STRUCTURAL (R11): each `bws.into_iter().map(|b| {..}).collect::<Result<Vec<_>, _>>()?` becomes
 // `collect_streams(&bws, &chrom, size, many)?` (verified above; the closure bodies are (2b-i)).
 //@extract fn bigtools/src/utils/cli/bigwigmerge.rs get_merged_vals
+//@rule R16
 //@presub /\A.*?let iter = chrom_sizes\.into_iter\(\)\.map\(move \|\(chrom, \(size, bws\)\)\| \{\n(.*)\n    \}\);\s*Ok\(\(iter, chrom_map\)\)\s*\}\s*\Z/ => fn per_chrom(chrom: Str, size: u32, bws: Vec<(Info, Path)>, max_bw_fds: usize, threshold: f32, adjust: Option<f32>, clip: Option<f32>) -> Result<(Str, u32, MergingValues), MergingValuesError> {\n\1\n} min=1 count=1
 //@sub /bws\s*\.into_iter\(\)\s*\.map\(\|b\| \{.*?\n[ \t]*\}\)\s*\.collect::<Result<Vec<_>, \w+>>\(\)\?;/ => collect_streams(&bws, &chrom, size, true)?; min=1 count=1
 //@sub /bws\s*\.into_iter\(\)\s*\.map\(\|b\| \{.*?\n[ \t]*\}\)\s*\.collect::<Result<Vec<_>, \w+>>\(\)\?;/ => collect_streams(&bws, &chrom, size, false)?; min=1 count=1
@@ -727,6 +732,7 @@ pub fn collect_streams(bws: &Vec<(Info, Path)>, chrom: &Str, size: u32, many: bo
 
 // (2c) the file-descriptor budget: the three statements `const MAX_FDS ..; const PARALLEL_CHROMS ..; let max_bw_fds ..;`
 //@extract fn bigtools/src/utils/cli/bigwigmerge.rs get_merged_vals
+//@rule R16
 //@presub /\A.*?\n([ \t]*const MAX_FDS: usize = .*?let max_bw_fds: usize = .*?;)\n.*\Z/ => fn fd_budget(max_zooms: usize) -> usize {\n\1\n    max_bw_fds\n} min=1 count=1
 //@ret r
 //@sig
@@ -849,6 +855,7 @@ pub open spec fn mismatch(files: Seq<BigWigRead>) -> bool {
 // become index `while` loops (the index is advanced at the loop head, so `continue` keeps its meaning); the
 // adaptor chain of the outer loop becomes `all_names(&bigwigs)`.
 //@extract fn bigtools/src/utils/cli/bigwigmerge.rs get_merged_vals
+//@rule R16
 //@presub /\A.*?\n([ \t]*let mut chrom_sizes = BTreeMap::new\(\);.*?)\n\s*\(chrom_sizes, chrom_map\)\s*\};.*\Z/ => fn chrom_table(bigwigs: &Vec<BigWigRead>) -> Result<(BTreeMap, HashMap), MergingValuesError> {\n\1\n    Ok((chrom_sizes, chrom_map))\n} min=1 count=1
 //@sub /for chrom in bigwigs\s*\.iter\(\)\s*\.flat_map\(BigWigRead::chroms\)\s*\.map\(\|c\| c\.name\.clone\(\)\)\s*\{/ => let names__ = all_names(bigwigs); let mut ni__: usize = 0; while ni__ < names__.len() { let chrom = names__[ni__].clone(); ni__ = ni__ + 1; min=1 count=1
 //@sub /for w in bigwigs\.iter\(\) \{/ => let mut wi__: usize = 0; while wi__ < bigwigs.len() { let w = &bigwigs[wi__]; wi__ = wi__ + 1; min=1 count=1
@@ -921,6 +928,7 @@ pub open spec fn mismatch(files: Seq<BigWigRead>) -> bool {
 //@end
 // the conversion behind the `?` on start_processing / block_on, extracted as a free function
 //@extract method bigtools/src/bbi/bbiwrite.rs from "From<ProcessDataError> for BBIProcessError"
+//@rule R16
 //@sub /fn from\(value: ProcessDataError\) -> Self/ => fn pde_into(value: ProcessDataError) -> BBIProcessError min=1
 //@end
 
@@ -1038,6 +1046,7 @@ pub open spec fn err_shape(base: Seq<Event>, q: Seq<Group>, m: int, k: int, lg: 
 // From<ProcessDataError> -> match + pde_into (the repository's From impl, extracted above).
 impl ChromGroupReadImpl {
 //@extract method bigtools/src/utils/cli/bigwigmerge.rs process_to_bbi "BBIDataSource for ChromGroupReadImpl"
+//@rule R16
 //@presub /fn process_to_bbi<.*?>\(\s*&mut self,.*?\) -> Result<\(\), BBIProcessError<Self::Error>> \{/ => fn process_to_bbi(&mut self, env: &mut Env) -> Result<(), BBIProcessError> { min=1 count=1
 //@sub /Option<Result<\(String, u32, MergingValues\), MergingValuesError>>/ => Option<Group> min=0
 //@sub /(?<![\w\.])start_processing\(/ => env.start_processing( min=0
@@ -1239,6 +1248,7 @@ proof fn lemma_bedgraph_and_bigwig_outputs_agree(lb: Seq<Line>, eb: Seq<Event>, 
 // STRUCTURAL (R11): `for v in iter {` -> `loop { let v = match iter.next() { Some(v__) => v__, None => break };`
 // (what `for` does with an iterator); `v?` / `Err(e)?` -> explicit match / return with the Box<dyn Error> conversion.
 //@extract fn bigtools/src/utils/cli/bigwigmerge.rs bigwigmerge
+//@rule R16
 //@presub /\A.*?let mut writer = io::BufWriter::new\(bedgraph\);\s*\n(.*)\n        \}\n    \}\s*(?:\/\/[^\n]*\s*)*Ok\(\(\)\)\s*\}\s*\Z/ => fn write_bedgraph(iter0: GroupIter, writer: &mut TextOut) -> Result<(), AnyErr> {\n    let mut iter = iter0;\n\1\n    Ok(())\n} min=1 count=1
 //@sub /for v in iter \{/ => loop { let v = match iter.next() { Some(v__) => v__, None => break }; min=1 count=1
 //@sub /= v\?;/ => = (match v { Ok(v__) => v__, Err(e__) => return Err(any_err(e__)) }); min=0
@@ -1369,6 +1379,7 @@ pub struct InArgs { pub bigwig: Vec<Str>, pub list: Vec<Str> }
 // Carved: from `let mut bigwigs ..` up to (not including) `let nthreads ..` / `let (iter, chrom_map) ..` (whichever is first).  Frame: signature, `Ok(Some(bigwigs))`;
 // `return Ok(());` (the tool ends successfully after printing) becomes `return Ok(None);`.
 //@extract fn bigtools/src/utils/cli/bigwigmerge.rs bigwigmerge
+//@rule R16
 //@presub /\A.*?\n([ \t]*let mut bigwigs: Vec<BigWigRead<ReopenableFile>> = .*?)\n\s*(?:let nthreads = |let \(iter, chrom_map\) = ).*\Z/ => fn open_inputs(args: InArgs, env: &mut World) -> Result<Option<Vec<BigWigRead>>, AnyErr> {\n\1\n    Ok(Some(bigwigs))\n} min=1 count=1
 //@presub /Vec<BigWigRead<ReopenableFile>> = vec!\[\]/ => Vec<BigWigRead> = Vec::new() min=0
 //@presub /BufReader::new\(list_file\)\.lines\(\)/ => list_file.read_lines() min=0
@@ -1458,6 +1469,7 @@ impl GroupIter {
 // signature cut from /repo (parameter order!), body skipped: its parts are (2a), (2b), (2c); ASSUMED here only
 // that the options of the groups are the ones passed in (the `move` closure captures them)
 //@extract fn bigtools/src/utils/cli/bigwigmerge.rs get_merged_vals
+//@rule R16
 //@skipbody
 //@sub /Vec<BigWigRead<ReopenableFile>>/ => Vec<BigWigRead> min=1
 //@sub /impl Iterator<Item = Result<\(String, u32, MergingValues\), MergingValuesError>>/ => GroupIter min=1
@@ -1469,6 +1481,7 @@ impl GroupIter {
 /// the arguments the statement reads (clap attributes dropped)
 pub struct MergeOpts { pub threshold: f32, pub adjust: Option<f32>, pub clip: Option<f32> }
 //@extract fn bigtools/src/utils/cli/bigwigmerge.rs bigwigmerge
+//@rule R16
 //@presub /\A.*?\n([ \t]*let \(iter, chrom_map\) = get_merged_vals\([^;]*;)\n.*\Z/ => fn call_merge(args: MergeOpts, bigwigs: Vec<BigWigRead>) -> Result<(GroupIter, HashMap), AnyErr> {\n\1\n    Ok((iter, chrom_map))\n} min=1 count=1
 //@sub /(get_merged_vals\([^;]*\))\?;/ => (match \1 { Ok(v__) => v__, Err(e__) => return Err(any_err(e__)) }); min=0
 //@ret r
